@@ -2,6 +2,7 @@ package main
 
 import (
 	"bytes"
+	"context"
 	"errors"
 	"fmt"
 	"io"
@@ -11,6 +12,7 @@ import (
 	"time"
 
 	"github.com/iden3/go-schema-processor/v2/loaders"
+	"github.com/iden3/go-schema-processor/v2/merklize"
 	"github.com/piprate/json-gold/ld"
 	"github.com/pquerna/cachecontrol"
 )
@@ -487,7 +489,74 @@ func emitLoaderHistory(out *Out, r *Rng) {
 	out.Emit(Case{Op: "loader.run", In: J{"cfg": cfg.J(), "ops": ops}, Impl: impl, Prop: propOf(why), Tags: tags, NT: nt})
 }
 
+// merklize.WithIPFSClient / WithIPFSGateway: a document whose context is an ipfs URL is merklized through the client when one is
+// given (the gateway is then ignored), through the gateway otherwise; with WithDocumentLoader both are ignored
+func emitMerklizeIPFSOptions(out *Out, r *Rng) {
+	ctxDoc := `{"@context":{"name":{"@id":"urn:ex:name"},"n":{"@id":"urn:ex:n","@type":"http://www.w3.org/2001/XMLSchema#integer"}}}`
+	inline := []byte(`{"@context":{"name":{"@id":"urn:ex:name"},"n":{"@id":"urn:ex:n","@type":"http://www.w3.org/2001/XMLSchema#integer"}},"@id":"urn:x","name":"a","n":5}`)
+	byIPFS := []byte(`{"@context":"ipfs://QmCtx/ctx.json","@id":"urn:x","name":"a","n":5}`)
+	want, err := merklize.MerklizeJSONLD(context.Background(), bytes.NewReader(inline))
+	if err != nil {
+		return
+	}
+	root := want.Root().BigInt().String()
+	var why []string
+	mk := func() *scriptedOrigin { return &scriptedOrigin{docs: map[string]*orgEntry{}} }
+	rootOf := func(opts ...merklize.MerklizeOption) (string, error) {
+		mz, err := merklize.MerklizeJSONLD(context.Background(), bytes.NewReader(byIPFS), opts...)
+		if err != nil {
+			return "", err
+		}
+		return mz.Root().BigInt().String(), nil
+	}
+	// (a) client only
+	oa := mk()
+	if rt, err := rootOf(merklize.WithIPFSClient(rawIPFS{oa, map[string]string{"QmCtx/ctx.json": ctxDoc}})); err != nil || rt != root {
+		why = append(why, fmt.Sprintf("WithIPFSClient: %v %v (expected the root of the document with the context inline)", trunc(rt, 20), err))
+	}
+	// (b) client and gateway: the client is asked, the gateway is not
+	ob := mk()
+	old := http.DefaultTransport
+	http.DefaultTransport = ob
+	http.DefaultClient.Transport = ob
+	if rt, err := rootOf(merklize.WithIPFSClient(rawIPFS{ob, map[string]string{"QmCtx/ctx.json": ctxDoc}}), merklize.WithIPFSGateway("https://gw.example")); err != nil || rt != root {
+		why = append(why, fmt.Sprintf("WithIPFSClient + WithIPFSGateway: %v %v", trunc(rt, 20), err))
+	}
+	for _, w := range ob.log {
+		if !strings.HasPrefix(w, "ipfs-node:") {
+			why = append(why, "WithIPFSClient + WithIPFSGateway: the gateway was asked for "+w)
+		}
+	}
+	// (c) neither: an error
+	if rt, err := rootOf(); err == nil {
+		why = append(why, "an ipfs context was resolved without client or gateway: root "+trunc(rt, 20))
+	}
+	http.DefaultTransport = old
+	http.DefaultClient.Transport = nil
+	out.Emit(Case{Op: "none", In: J{"merklize": "ipfs-options"}, Impl: J{}, Prop: propOf(why), Tags: []string{"merklize-ipfs-options"}, NT: true})
+}
+
+// rawIPFS: an IPFS client serving fixed bodies
+type rawIPFS struct {
+	o    *scriptedOrigin
+	docs map[string]string
+}
+
+func (f rawIPFS) Cat(path string) (io.ReadCloser, error) {
+	f.o.mu.Lock()
+	f.o.log = append(f.o.log, "ipfs-node:"+path)
+	f.o.mu.Unlock()
+	b, ok := f.docs[path]
+	if !ok {
+		return nil, errors.New("ipfs: not found")
+	}
+	return io.NopCloser(strings.NewReader(b)), nil
+}
+
 func genC19(out *Out, r *Rng, tier string, n int, shard int) {
+	if shard == 0 {
+		emitMerklizeIPFSOptions(out, r)
+	}
 	for i := 0; i < n; i++ {
 		emitLoaderHistory(out, r)
 	}
